@@ -7,6 +7,7 @@
 #include "../sim/seams.h"
 #include "../sim/super.h"
 
+#include <stdarg.h>
 #include <stdio.h>
 #include <stdlib.h>
 #include <string.h>
@@ -22,6 +23,25 @@ extern "C"
 using namespace sim;
 
 namespace {
+
+// An oracle of the other camera property (C17 under C18's profile or vice
+// versa) is counted and skipped; the run goes on (see rt.cpp soft_fail).
+static bool
+cam_soft(const char* id, const char* fmt, ...)
+  __attribute__((format(printf, 2, 3)));
+static bool
+cam_soft(const char* id, const char* fmt, ...)
+{
+    char buf[1024];
+    va_list ap;
+    va_start(ap, fmt);
+    vsnprintf(buf, sizeof(buf), fmt, ap);
+    va_end(ap);
+    if (oracle_gates(id))
+        oracle_fail(id, "%s", buf); // does not return
+    probe((std::string("other.") + id).c_str());
+    return true;
+}
 
 static void
 cam_reporter(int is_error, const char* file, int line, const char*,
@@ -86,39 +106,44 @@ check_shape(CamWorld& c, const char* when)
     struct ImageShape s;
     memset(&s, 0, sizeof(s));
     if (camera_get_image_shape(c.cam, &s) != Device_Ok)
-        oracle_fail("C17.get_shape_failed", "%s: get_shape failed", when);
+        if (cam_soft("C17.get_shape_failed", "%s: get_shape failed", when))
+            return;
     uint32_t maxdim = 8192u / (uint32_t)c.binning;
     uint32_t ew = c.w < 1 ? 1 : (c.w > maxdim ? maxdim : c.w);
     uint32_t eh = c.h < 1 ? 1 : (c.h > maxdim ? maxdim : c.h);
     if (s.dims.width != ew || s.dims.height != eh || s.dims.channels != 1 ||
         s.dims.planes != 1)
-        oracle_fail("C17.wrong_shape",
+        if (cam_soft("C17.wrong_shape",
                     "%s: configured %ux%u with binning %d: expected the "
                     "clamped shape %ux%u but the camera reports %ux%u "
                     "(channels %u, planes %u)",
                     when, c.w, c.h, c.binning, ew, eh, s.dims.width,
-                    s.dims.height, s.dims.channels, s.dims.planes);
+                    s.dims.height, s.dims.channels, s.dims.planes))
+            return;
     if (s.strides.channels != 1 || s.strides.width != 1 ||
         s.strides.height != (int64_t)ew ||
         s.strides.planes != (int64_t)ew * eh)
-        oracle_fail("C17.wrong_strides",
+        if (cam_soft("C17.wrong_strides",
                     "%s: strides (%lld,%lld,%lld,%lld) do not match the "
                     "reported %ux%u image",
                     when, (long long)s.strides.channels,
                     (long long)s.strides.width, (long long)s.strides.height,
-                    (long long)s.strides.planes, ew, eh);
+                    (long long)s.strides.planes, ew, eh))
+            return;
     if ((int)s.type != c.type)
-        oracle_fail("C17.wrong_type", "%s: sample type %d reported, %d set",
-                    when, (int)s.type, c.type);
+        if (cam_soft("C17.wrong_type", "%s: sample type %d reported, %d set",
+                    when, (int)s.type, c.type))
+            return;
     struct CameraProperties p;
     memset(&p, 0, sizeof(p));
     if (camera_get(c.cam, &p) != Device_Ok)
-        oracle_fail("C17.get_failed", "%s: camera_get failed", when);
+        if (cam_soft("C17.get_failed", "%s: camera_get failed", when))
+            return;
     if (p.binning != c.binning || (int)p.pixel_type != c.type ||
         p.shape.x != ew || p.shape.y != eh ||
         p.exposure_time_us != c.exposure_us ||
         p.input_triggers.frame_start.enable != (uint8_t)c.trig)
-        oracle_fail("C17.readback_differs",
+        if (cam_soft("C17.readback_differs",
                     "%s: values read back (binning %d, type %d, shape %ux%u, "
                     "exposure %g, trigger %d) are not the ones in effect "
                     "(binning %d, type %d, shape %ux%u, exposure %g, trigger "
@@ -126,7 +151,8 @@ check_shape(CamWorld& c, const char* when)
                     when, p.binning, (int)p.pixel_type, p.shape.x, p.shape.y,
                     (double)p.exposure_time_us,
                     p.input_triggers.frame_start.enable, c.binning, c.type, ew,
-                    eh, (double)c.exposure_us, c.trig);
+                    eh, (double)c.exposure_us, c.trig))
+            return;
 }
 
 // one frame into an exact-size heap buffer: ASan guards both ends
@@ -139,10 +165,10 @@ get_one_frame(CamWorld& c, bool* ok, bool undersized = false)
     size_t n = (size_t)s.dims.width * s.dims.height * bpp((int)s.type);
     size_t declared = (size_t)s.strides.planes * bpp((int)s.type);
     if (n != declared)
-        oracle_fail("C17.wrong_strides",
-                    "bytes_of_image from strides (%zu) differs from "
-                    "width*height*bytes (%zu)",
-                    declared, n);
+        (void)cam_soft("C17.wrong_strides",
+                       "bytes_of_image from strides (%zu) differs from "
+                       "width*height*bytes (%zu)",
+                       declared, n);
     if (undersized && n > 0) {
         // a caller's mistake: the buffer is one byte short.  The driver must
         // refuse (writing the image would overrun the exact-size buffer) and
@@ -160,7 +186,7 @@ get_one_frame(CamWorld& c, bool* ok, bool undersized = false)
     if (*ok && info.hardware_frame_id != 0xEEEEEEEEEEEEEEEEull) {
         id = (int64_t)info.hardware_frame_id;
         if (memcmp(&info.shape, &s, sizeof(s)) != 0 && !c.stop_invoked_seq)
-            oracle_fail("C17.frame_shape_differs",
+            (void)cam_soft("C17.frame_shape_differs",
                         "get_frame reports a shape different from get_shape "
                         "(%ux%u type %d vs %ux%u type %d)",
                         info.shape.dims.width, info.shape.dims.height,
@@ -301,12 +327,16 @@ struct CamHarness : Harness
         bool valid_bin = bin == 1 || bin == 2 || bin == 4 || bin == 8;
         if (rc != Device_Ok) {
             if (valid_bin)
-                oracle_fail("C17.valid_configuration_rejected",
+                (void)cam_soft("C17.valid_configuration_rejected",
                             "camera_set rejected binning %d, shape %lldx%lld, "
                             "type %lld",
                             bin, (long long)op.i("w"), (long long)op.i("h"),
                             (long long)op.i("t"));
             probe("n.sets_rejected");
+            // a refused set changes nothing: what was in effect still is, and
+            // is what reads back
+            if (c.configured)
+                check_shape(c, "after a refused set");
             return false;
         }
         if (!valid_bin) {
